@@ -51,6 +51,10 @@ class P:
             # still re-emitted with its own source, lengths and payload, in order
             if i % 3 == 2:
                 self.cj[line]["burst"] = rng.choice([3, 8])
+            # every fourth case goes through the real mirror DISPATCHER (the goroutine between the workers' mirror queue and the mirror
+            # workers), exporters in 4-octet and 16-octet form alike
+            if i % 4 in (1, 2):       # (one sFlow, one IPFIX case out of four)
+                self.cj[line]["dispatch"] = True
             out.append(line)
         # the copy the WORKER makes for the mirror goroutine (vflow/ipfix.go, vflow/sflow.go): real workers with mirroring on, the
         # mirror queue read only after all datagrams were processed (an aliased or reused buffer is then visibly overwritten)
